@@ -356,9 +356,8 @@ def r_check(cx, rec):
                 rec.need(c == 4 and v is not None and not v.startswith('len('), 'check/%s/size' % name, f, None,
                          '%s::check returns %s%s, expected 4 + length' % (name, c, (' + ' + v) if v else ''))
         # the guard is exactly `available >= returned size` (not > or <=): a complete message is consumed at once
-        params = [v['n'] for v in f.raw['vars'] if 'arg' in v]
-        if any('available' in p for p in params):
-            from rules import C06
+        from rules import C06
+        if C06.avail_params(F, f) or any(t == 'usize' for n, l, t in C.params_of(f)[1:]):
             for bi, si, oe in mirq.agg_sites(f, r'^std::result::Result$', 'Ok'):
                 g = C06.avail_guard(F, f, bi, oe[4][0][1])
                 rec.need(g, 'check/%s/guard' % name, f, bi,
